@@ -56,6 +56,10 @@ func c14Unit(r *fw.Rand, size int) []byte {
 
 func c14Size(r *fw.Rand, mtu int) int {
 	s := r.Pick(3, 4, mtu-6, mtu-5, mtu-4, mtu-3, mtu-2, mtu-1, mtu, mtu+1, mtu+2, mtu+3, 2*mtu-1, 2*mtu, 2*mtu+1, r.Range(3, 4*mtu), r.Range(3, 12), r.Range(3, mtu+4))
+	if mtu > 5 && r.Chance(1, 5) {
+		// k full FUs (mtu-3, or mtu-5 with DONL) plus a last FU of 0-2 bytes
+		s = 2 + r.Range(1, 5)*(mtu-r.Pick(3, 5)) + r.Pick(0, 1, 2)
+	}
 	if s < 3 {
 		s = 3
 	}
